@@ -2,7 +2,7 @@
 util.sh under bash, and run/clean histories through the real canvas + robsd-clean (DESIGN.md 7, C17)."""
 import glob, hashlib, json, os, re, shutil, subprocess
 from concurrent.futures import ThreadPoolExecutor
-import common, iv_common
+import common, iv_common, c16
 from common import hexs, unhex
 
 TRANSLATORS = ['t_util']
@@ -12,10 +12,15 @@ TRUSTED = ['bash standing in for ksh; GNU find/wc/tr/printf/echo as used by buil
            'the glob "PREFIX*" is modelled as a prefix test (step names over letters, digits, . _ - / only); '
            'the oracle is applied to roots reachable by running and cleaning and to build directories written only by '
            'attempts; other directory contents (files or symlinks named like invocations, nested matches, names with '
-           'newlines, deleted logs) are used for the model-vs-implementation comparison only']
+           'newlines, deleted logs) are used for the model-vs-implementation comparison only; '
+           'end-to-end lanes: build_id+build_init on trees with file contents (whole-tree comparison), lock_acquire on '
+           'lock files without NUL bytes, log_id interleaved with entries appearing/disappearing - the freshness oracle is '
+           'applied to the interleavings whose additions/deletions the generator draws from names without ".log" '
+           '(the guard of C17_log_env_fresh, by construction of the generator)']
 
 RUNNER = os.path.join(common.VERIF, 'harness', 'iv_c17_run.sh')
 SIG_D10 = 'build-id-collision-after-gap'
+SIG_LOGDEL = 'log-id-reuses-name-after-log-deleted'
 DATE = '2024-03-05'
 OTHER_DAYS = ['2024-03-04', '2024-03-06', '2024-02-29', '2023-03-05']
 NAMES = ['a', 'b', 'a.log', 'a/b', 'a-b', 'bin/ksh', 'usr.bin/make', '-n', '-e', '-nE', '-x', '-', 'a_b', '0', '1.2',
@@ -166,6 +171,65 @@ def gen_log(rng):
     return {'kind': 'log', 'stream': stream, 'entries': out, 'attempts': [[s, n.encode().hex()] for s, n in atts]}
 
 
+def gen_newinv(rng):
+    c = gen_bid(rng)
+    c['kind'] = 'newinv'
+    return c
+
+
+LOCKS = ['absent', 'own', 'own', 'other', 'other', 'empty', 'own_nonl', 'own_two_nl', 'nl_only', 'other_prefix', 'own_second_line',
+         'other_nonl', 'same_name_elsewhere', 'own_respelled', 'own_parent']
+
+
+def gen_lock(rng):
+    return {'kind': 'lock', 'lock': rng.choice(LOCKS), 'id': '%s.%d' % (DATE, rng.choice([1, 2, 10])),
+            'spell': rng.choice(['abs', 'abs', 'slash'])}
+
+
+SAFE_PUT = [('report', 'F'), ('comment', 'F'), ('tags', 'F'), ('src.diff.1', 'F'), ('rel', 'D'), ('tmp/x.tmp', 'F'),
+            ('tmp/step-exec.Ab12', 'F'), ('stat.csv', 'F'), ('tmp/sub', 'D'), ('001-a.logx', 'F')]
+SAFE_DEL = ['report', 'comment', 'tags', 'src.diff.1', 'rel', 'tmp/x.tmp', 'tmp/step-exec.Ab12', 'stat.csv', 'tmp/sub', 'nothing']
+
+
+def gen_logenv(rng):
+    stream = 'guarded' if rng.random() < 0.65 else 'wild'
+    ents = [['tmp', 'D'], ['robsd.log', 'F'], ['step.csv', 'F']]
+    nn = rng.choice([1, 2, 3])
+    pairs = list(zip(rng.sample(STEPS, nn), rng.sample(NAMES, nn)))
+    ops = []
+    have = {'tmp', 'robsd.log', 'step.csv'}
+    made = []
+    for _ in range(rng.choice([3, 5, 8, 12])):
+        r = rng.random()
+        if r < 0.55:
+            s_, n_ = rng.choice(pairs)
+            ops.append(['A', s_, n_.encode().hex()])
+            made.append((s_, n_))
+        elif r < 0.8:
+            pool = [x for x in SAFE_PUT if x[0] not in have and ('/' not in x[0] or x[0].split('/')[0] in have)]
+            if stream == 'wild' and made and rng.random() < 0.5:
+                s_, n_ = rng.choice(made)
+                stem = '%03d-%s.log' % (s_, n_.replace('/', '-') if not re.fullmatch(r'-[neE]+', n_) else '')
+                pool = [x for x in [('tmp/' + stem + '.junk', 'F'), (stem + '.%d' % rng.choice([1, 2, 5]), 'F'), (stem + 'x', 'F')]
+                        if x[0] not in have]
+            if pool:
+                pth, k = rng.choice(pool)
+                ops.append(['P', k, pth.encode().hex()])
+                have.add(pth)
+        else:
+            if stream == 'wild' and rng.random() < 0.6:
+                cand = sorted(x for x in have if '.log' in x and x != 'robsd.log')
+                if made:
+                    s_, n_ = rng.choice(made)
+                    cand.append('%03d-%s.log' % (s_, n_.replace('/', '-') if not re.fullmatch(r'-[neE]+', n_) else ''))
+                pth = rng.choice(cand) if cand else 'nothing'
+            else:
+                pth = rng.choice(SAFE_DEL)
+            ops.append(['X', pth.encode().hex()])
+            have = {x for x in have if x != pth and not x.startswith(pth + '/')}
+    return {'kind': 'logenv', 'stream': stream, 'entries': [[p_.encode().hex(), k] for p_, k in ents], 'ops': ops}
+
+
 def gen_hist(rng):
     """operations on a real canvas root: run = a complete canvas -d invocation (which also cleans with the
     configured keep), clean = robsd-clean -m canvas <count>"""
@@ -262,6 +326,48 @@ def run_case(ctx, impl, env, work, idx, c):
             for s, nh in c['attempts']:
                 args += [str(s), bytes.fromhex(nh)]
             rc, out, err = bash(common.REPO, env, ['logseq', b] + args)
+            return {'start': b, 'base': b'b', 'tree': tree, 'rc': rc, 'out': out, 'err': err,
+                    'snap_before': snap, 'snap_after': iv_common.snapshot(b)}
+        if c['kind'] == 'newinv':
+            root = os.path.join(d, c['rootname']).encode()
+            os.mkdir(root)
+            materialize(c['entries'], root)
+            start = root + (b'/' if c['spell'] == 'slash' else b'')
+            before = iv_common.snapshot(root)
+            rc, out, err = bash(common.REPO, env, ['newinv', start])
+            lines = out.split(b'\n')
+            rcm = re.search(rb'rc=(\d+)', lines[-2] if len(lines) >= 2 else b'')
+            return {'start': start, 'base': c['rootname'].encode(), 'before': before, 'after': iv_common.snapshot(root),
+                    'id': b'\n'.join(lines[:-2]), 'rc': int(rcm.group(1)) if rcm else -1, 'err': err}
+        if c['kind'] == 'lock':
+            root = os.path.join(d, 'root')
+            os.mkdir(root)
+            rs = root + ('/' if c['spell'] == 'slash' else '')
+            bd = '%s/%s' % (rs, c['id'])
+            other = '%s/%s' % (rs, '2024-03-04.7')
+            content = {'absent': None, 'own': bd + '\n', 'other': other + '\n', 'empty': '', 'own_nonl': bd,
+                       'own_two_nl': bd + '\n\n', 'nl_only': '\n', 'other_prefix': bd + 'x\n',
+                       'own_second_line': bd + '\nsecond\n', 'other_nonl': other,
+                       'same_name_elsewhere': '/elsewhere/%s\n' % c['id'], 'own_respelled': '%s//%s\n' % (rs.rstrip('/'), c['id']),
+                       'own_parent': rs + '\n'}[c['lock']]
+            if content is not None:
+                open(os.path.join(root, '.running'), 'w').write(content)
+            rc, out, err = bash(common.REPO, env, ['lockacq', rs, bd])
+            rcm = re.search(rb'rc=(\d+)', out)
+            lp = os.path.join(root, '.running')
+            return {'bd': bd.encode(), 'lock': None if content is None else content.encode(),
+                    'rc': int(rcm.group(1)) if rcm else -1, 'after': open(lp, 'rb').read() if os.path.exists(lp) else None,
+                    'err': err}
+        if c['kind'] == 'logenv':
+            b = os.path.join(d, 'b').encode()
+            os.mkdir(b)
+            materialize(c['entries'], b)
+            tree = walk_tree(b)
+            snap = iv_common.snapshot(b)
+            args = []
+            for o in c['ops']:
+                args += [o[0]] + [(bytes.fromhex(x) if i == len(o) - 2 else str(x)) for i, x in enumerate(o[1:])]
+            rc, out, err = bash(common.REPO, env, ['logenv', b] + args)
             return {'start': b, 'base': b'b', 'tree': tree, 'rc': rc, 'out': out, 'err': err,
                     'snap_before': snap, 'snap_after': iv_common.snapshot(b)}
         if c['kind'] == 'hist':
@@ -365,6 +471,18 @@ def evaluate(ctx, cases, res, impl=None):
             after = o['after'] or []
             qs.append(' '.join(['kept', str(len(o['before']))] + [hexs(n) for n in o['before']]
                                + [str(len(after))] + [hexs(n) for n in after]))
+        elif c['kind'] == 'newinv':
+            index.append((i, 'newinv', len(qs)))
+            qs.append(' '.join(['newinv', dhex, hexs(o['start']), hexs(o['base'])] + c16.snap_tokens(o['before'])))
+        elif c['kind'] == 'lock':
+            index.append((i, 'lock', len(qs)))
+            qs.append(' '.join(['lockacq', '!' if o['lock'] is None else hexs(o['lock']), hexs(o['bd'])]))
+        elif c['kind'] == 'logenv':
+            index.append((i, 'logenv', len(qs)))
+            toks = []
+            for op in c['ops']:
+                toks += [op[0]] + [str(x) if x != '' else '-' for x in op[1:]]
+            qs.append(' '.join(['lenv', hexs(o['start']), hexs(o['base']), str(len(c['ops']))] + toks + tree_toks(o['tree'])))
         elif c['kind'] == 'log':
             index.append((i, 'log', len(qs)))
             att = [x for s, nh in c['attempts'] for x in (str(s), nh if nh else '-')]
@@ -432,6 +550,96 @@ def evaluate(ctx, cases, res, impl=None):
             elif o['changed']:
                 res.oracle_failures.append({'case': c, 'signature': 'build-init-modifies-existing-entries',
                                             'what': 'build_init changed existing entries: %r' % o['changed'][:3], 'impl': impl_s})
+        elif kind == 'newinv':
+            mt = ans[q].split()
+            mid, mrc, mfs = unhex(mt[0]), mt[1], c16.parse_fs(mt[2:])
+            res.count('newinv-entries=%s' % min(len(o['before']) // 10 * 10, 60))
+            if any(b'/' not in p_ and p_.startswith(DATE.encode()) for p_ in o['before']):
+                res.nontrivial.add(key)
+            if mid != o['id'] or mrc != str(o['rc']) or mfs != o['after']:
+                only_impl = sorted(set(o['after']) - set(mfs))[:4]
+                only_model = sorted(set(mfs) - set(o['after']))[:4]
+                res.disagreements.append({'case': c, 'model': '%s rc=%s only-model %r' % (hexs(mid), mrc, only_model),
+                                          'impl': '%s rc=%s only-impl %r' % (hexs(o['id']), o['rc'], only_impl),
+                                          'stderr': o['err'][-200:].decode('latin1')})
+            bad = None
+            changed = sorted(r for r, v in o['before'].items() if o['after'].get(r) != v)
+            new = {r: v for r, v in o['after'].items() if r not in o['before']}
+            want = {o['id']: ('d',), o['id'] + b'/tmp': ('d',), o['id'] + b'/robsd.log': ('f', b''), o['id'] + b'/step.csv': ('f', b'')}
+            if changed:
+                bad = ('new-invocation-modifies-existing-entries', 'entries changed or removed: %r' % changed[:3])
+            elif o['id'] in o['before']:
+                bad = ('build-id-names-existing-entry', 'build_id printed the existing name %r' % o['id'])
+            elif new != want or o['rc'] != 0:
+                bad = ('new-invocation-not-a-fresh-builddir', 'rc %s, new entries %r' % (o['rc'], sorted(new)[:6]))
+            if bad:
+                res.oracle_failures.append({'case': c, 'signature': bad[0], 'what': bad[1], 'impl': hexs(o['id'])})
+        elif kind == 'lock':
+            m = ans[q]
+            impl_s = '%d %s' % (o['rc'], '!' if o['after'] is None else hexs(o['after']))
+            res.count('lock=' + c['lock'])
+            res.nontrivial.add(key)
+            if m != impl_s:
+                res.disagreements.append({'case': c, 'model': m, 'impl': impl_s, 'stderr': o['err'][-200:].decode('latin1')})
+            # independent statement: a lock whose content (less trailing newlines) is non-empty and not this build
+            # directory refuses and stays; anything else is granted and then names this directory
+            owner = (o['lock'] or b'').rstrip(b'\n')
+            if owner and owner != o['bd']:
+                okl = o['rc'] == 1 and o['after'] == o['lock']
+            else:
+                okl = o['rc'] == 0 and o['after'] == o['bd'] + b'\n'
+            if not okl:
+                res.oracle_failures.append({'case': c, 'signature': 'lock-acquire-wrong-decision',
+                                            'what': 'lock %r, build directory %r: rc %d, lock afterwards %r'
+                                                    % (o['lock'], o['bd'], o['rc'], o['after']), 'impl': impl_s})
+        elif kind == 'logenv':
+            m = ans[q]
+            names = o['out'].split(b'\n')[:-1]
+            impl_s = ' '.join(hexs(n) for n in names)
+            res.count('logenv-ops=%d' % len(c['ops']))
+            natt = sum(1 for op in c['ops'] if op[0] == 'A')
+            if natt >= 2 and natt < len(c['ops']):
+                res.nontrivial.add(key)
+            if m != impl_s or o['rc'] != 0:
+                res.disagreements.append({'case': c, 'model': m, 'impl': impl_s, 'rc': o['rc'],
+                                          'stderr': o['err'][-200:].decode('latin1')})
+            tracked = common.match_known('C17', SIG_LOGDEL) is not None
+            if True:
+                have = {p_ for p_, k_ in o['tree'] if b'/' not in p_}
+                j = 0
+                bad = None
+                for op in c['ops']:
+                    if op[0] == 'A':
+                        if j >= len(names):
+                            bad = ('log-id-failed', 'attempt %d printed nothing' % (j + 1))
+                            break
+                        if names[j] in have:
+                            bad = ('log-id-reuses-existing-name', 'attempt %d of %s got the existing name %s'
+                                   % (j + 1, op[1:], names[j].decode('latin1')))
+                            break
+                        have.add(names[j])
+                        j += 1
+                    elif op[0] == 'P':
+                        pth = bytes.fromhex(op[2])
+                        if b'/' not in pth:
+                            have.add(pth)
+                    else:
+                        have.discard(bytes.fromhex(op[1]))
+                if bad is None:
+                    for j, nm in enumerate(names):
+                        if o['snap_after'].get(nm) != ('f', b'attempt %d\n' % (j + 1)):
+                            bad = ('log-overwritten', 'log of attempt %d (%s) does not hold its own output'
+                                   % (j + 1, nm.decode('latin1')))
+                            break
+                if bad and c['stream'] != 'guarded':
+                    # comparison-only stream (logs deleted, matches below tmp, suffixed names put there): the collision is
+                    # the documented boundary of C17_log_env_fresh (findings/C17_log_id_after_delete.md); it is reported
+                    # under its own signature once known_findings.json tracks it, and counted otherwise
+                    res.count('logenv-wild-' + bad[0])
+                    bad = (SIG_LOGDEL, bad[1]) if (tracked and bad[0] == 'log-id-reuses-existing-name'
+                                                and any(op[0] == 'X' for op in c['ops'])) else None
+                if bad:
+                    res.oracle_failures.append({'case': c, 'signature': bad[0], 'what': bad[1], 'impl': impl_s})
         elif kind == 'log':
             m = ans[q]
             names = o['out'].split(b'\n')[:-1]
@@ -497,6 +705,9 @@ def run(ctx, n=None):
                 'nested and hidden matches, newlines, a matching root name), build_init on existing/missing directories, '
                 'log_id on sequences of 1-12 attempts of 1-4 steps over the property\'s name alphabet (incl. names echo takes '
                 'for options, >999 step numbers; comparison-only stream with deleted logs, nested matches, equal numbers), '
+                'build_id+build_init end to end on roots with file contents (whole tree compared), lock_acquire on 15 lock '
+                'states, log_id interleaved with entries appearing and disappearing (guarded stream: names without ".log"; '
+                'comparison-only stream: logs deleted, matches below tmp), '
                 'and run/clean histories through the real canvas and robsd-clean; non-trivial = a root with an invocation '
                 'of the day / an existing directory with content / at least two attempts / at least two runs')
     n = n or ctx.budget(500, 6000)
@@ -505,7 +716,8 @@ def run(ctx, n=None):
     cases = load_corpus()
     for _ in range(n):
         r = rng.random()
-        cases.append(gen_bid(rng) if r < 0.45 else gen_binit(rng) if r < 0.55 else gen_log(rng))
+        cases.append(gen_bid(rng) if r < 0.32 else gen_binit(rng) if r < 0.40 else gen_log(rng) if r < 0.66 else
+                     gen_newinv(rng) if r < 0.80 else gen_lock(rng) if r < 0.84 else gen_logenv(rng))
     cases += [gen_hist(rng) for _ in range(nh)]
     res.samples = cases[:3]
     res.assumptions = ['directory states of up to ~60 entries, up to 14 invocations per day, up to 12 attempts, histories of up '
